@@ -16,6 +16,14 @@ CHECKS = {
         note="Trusted: TLC, the gate's attribution of backend calls to contenders (API function names on the call stack), model time for staleness (Stat re-stamped by the gate). "
              "Known findings (protocol-level, see known_findings.json) are reported as KNOWN-FINDING; any other signature is a violation.",
         technique="TLA+ spec + TLC exhaustive; TLC-generated schedules forced on real code through an afero.Fs gate; TLC judges recorded traces"),
+    "C04": dict(
+        category="model_checking", design_ref="DESIGN.md 5/C04",
+        text="FsRemove.tla states the reference semantics of removal (rm -rf: links are leaves, exclusion protects an entry, what is beneath it and its ancestors) over a sandbox "
+             "with an inside tree and an outside region; TLC enumerates every scenario (3700: tree shape x link place x link target class x entry point x pattern), checks the semantics "
+             "against OutsideUnchanged / SuccessMeansGone / ExcludedSurvive, and emits the expected tree. Every scenario is materialised on the real filesystem(s), the real entry point "
+             "is called, and a no-follow snapshot of the whole sandbox before/after is judged by TLC (FsRemoveTrace.tla); seeded random larger trees go through the same judgement.",
+        note="Trusted: TLC, the Lstat-based snapshot, os.Symlink; link scenarios on the OS backend only.",
+        technique="TLA+ reference semantics + TLC exhaustive scenario enumeration; replay on real filesystems; TLC trace validation"),
     "C10": dict(
         category="model_checking", design_ref="DESIGN.md 5/C10",
         text="The statement (Clamp over limb-encoded integers, ranges derived from bit widths) is checked by TLC for range, identity, idempotence, "
